@@ -83,9 +83,11 @@ Disjoint(S, T) == S \cap T = {}
 PairwiseDistinct(env, ts) == \A i, j \in DOMAIN ts : i < j => Disjoint(OuterTags(env, ts[i]), OuterTags(env, ts[j]))
 \* X.680 25.6 / 25.6.1: within every run of consecutive OPTIONAL / DEFAULT components together with the
 \* component that follows the run (if any), the outermost tags are pairwise distinct
+\* (an extension addition is absent in encodings of earlier versions, but then so are all additions after it: a
+\* run is delimited by the OPTIONAL / DEFAULT marks alone, also across the extension marker)
 SeqTagsOK(env, T) ==
   LET cs == AllComps(T)
-      optional(i) == cs[i].o # "M" \/ i > Len(T.comps)
+      optional(i) == cs[i].o # "M"
   IN \A i, j \in DOMAIN cs :
         (i < j /\ \A k \in i..(j - 1) : optional(k)) => Disjoint(OuterTags(env, cs[i].t), OuterTags(env, cs[j].t))
 IdentsOK(T) == LET cs == AllComps(T) IN \A i, j \in DOMAIN cs : i < j => cs[i].n # cs[j].n
@@ -109,8 +111,36 @@ TypeLegal(env, T) ==
     [] T.k \in {"SEQOF", "SETOF"} -> TypeLegal(env, T.t)
     [] OTHER -> TRUE
 \* a module is legal iff every reference resolves and every definition satisfies the rules
+\* X.680 25.3 / 27.3 / 29.3 with their notes: whether automatic tagging applies is decided on the extension root;
+\* when it applies (AUTOMATIC TAGS, no root component is a TaggedType) no extension addition may be a TaggedType
+RECURSIVE AutoExtOK(_)
+AutoExtOK(T) ==
+  CASE T.k \in {"SEQUENCE", "SET", "CHOICE"} ->
+         /\ ((\A i \in DOMAIN T.comps : T.comps[i].t.k # "TAGGED") => \A j \in DOMAIN T.adds : T.adds[j].t.k # "TAGGED")
+         /\ \A i \in DOMAIN AllComps(T) : AutoExtOK(AllComps(T)[i].t)
+    [] T.k \in {"SEQOF", "SETOF", "TAGGED"} -> AutoExtOK(T.t)
+    [] OTHER -> TRUE
 Legal(mod) ==
   LET raw == EnvOf(mod) names == DOMAIN raw
   IN /\ \A n \in names : RefsOK(names, raw[n])
+     /\ (mod.tagging = "AUTOMATIC" => \A n \in names : AutoExtOK(raw[n]))
      /\ (LET env == NormEnv(mod) IN \A n \in names : TypeLegal(env, env[n]))
+
+\* the same with the OPTIONAL-run rule of SEQUENCE not reaching across the extension marker (root and additions
+\* checked separately): used only to delimit a recorded defect of asn1c, never as the verdict
+SeqTagsOKSplit(env, T) ==
+  LET cs == AllComps(T) nr == Len(T.comps)
+      optional(i) == cs[i].o # "M"
+  IN \A i, j \in DOMAIN cs :
+        (i < j /\ ((i <= nr) = (j <= nr)) /\ \A k \in i..(j - 1) : optional(k)) => Disjoint(OuterTags(env, cs[i].t), OuterTags(env, cs[j].t))
+RECURSIVE TypeLegalSplit(_, _)
+TypeLegalSplit(env, T) ==
+  CASE T.k = "SEQUENCE" -> IdentsOK(T) /\ SeqTagsOKSplit(env, T) /\ \A i \in DOMAIN AllComps(T) : TypeLegalSplit(env, AllComps(T)[i].t)
+    [] T.k = "TAGGED" -> TypeLegalSplit(env, T.t)
+    [] OTHER -> TypeLegal(env, T)
+LegalSplit(mod) ==
+  LET raw == EnvOf(mod) names == DOMAIN raw
+  IN /\ \A n \in names : RefsOK(names, raw[n])
+     /\ (mod.tagging = "AUTOMATIC" => \A n \in names : AutoExtOK(raw[n]))
+     /\ (LET env == NormEnv(mod) IN \A n \in names : TypeLegalSplit(env, env[n]))
 =============================================================================
